@@ -207,6 +207,10 @@ type caseEntry struct {
 
 var caseReg = map[int]*caseEntry{}
 
+// constants for replays in which the reference has to compute real hashes
+var concreteGL *ref.GLConsts
+var concreteBN *ref.BN128Consts
+
 func (cc *caseCircuit) Define(api frontend.API) error {
 	ent := caseReg[cc.ID]
 	fc := &fctx{api: api, chip: gl.New(api), rb: ref.NewB(), replay: true, rin: cc.In, rhandle: map[string]*replayHandle{}}
@@ -273,6 +277,10 @@ func replayFieldCase(c fieldCase, extraHooks map[string]hookFn, vals func(name s
 	}
 	memo := map[*ref.N]*big.Int{}
 	var want []*big.Int
+	if concreteGL != nil || concreteBN != nil {
+		ref.SetConcreteHashes(concreteGL, concreteBN)
+		defer ref.ClearConcreteHashes()
+	}
 	for _, n := range refs {
 		want = append(want, ref.Eval(n, func(h any) *big.Int { return env[h] }, memo))
 	}
